@@ -122,7 +122,7 @@ REWRITES = {
                "`e?` on an io::Result is `match e { Ok(v) => v, Err(x) => return Err(From::from(x)) }` (the definition of `?`; Verus does not track the converted error of a `?` between different error types)"),
     "write_macros": (None, None,
         "write!(f, \"<literal>\") appends the literal; write!(f, \"{}\", x) / \"{x}\" appends Display of x; \"{}{}\" two of them; write!(f, \"\\\\u{:04x}\", n) appends backslash-u and lower-case hex of n padded to AT LEAST four digits; writeln!(f) appends a line feed; a target `self.w.borrow_mut()` is the sink `&mut self.w`"),
-    "enumerate": (r"(\w+(?:\.\w+)*)\.iter\(\)\.enumerate\(\)", r"vit::venumerate(\1.iter())",
+    "enumerate": (r"(\w+(?:\.\w+)*)\.(iter|into_iter)\(\)\.enumerate\(\)", r"vit::venumerate(\1.\2())",
         "`.iter().enumerate()` pairs each item with its 0-based position (own iterator type: vstd has no specification for Enumerate)"),
     "underscore_param2": (r"\(&self, _: ", r"(&self, _unused: ", "a parameter pattern `_` is an unnamed (unused) parameter"),
     "pub_fields": (r"(?m)^(\s+)(?!pub\b)([a-z_]\w*)(\s*:\s)", r"\1pub \2\3", "field visibility is irrelevant in a single file"),
@@ -130,6 +130,10 @@ REWRITES = {
     "cmp_dispatch": (r"\.cmp\(", r".vcmp(",
         "`x.cmp(y)` calls the Ord impl of x's type; here it dispatches (trait VCmp, one impl per type) to a trusted stand-in carrying that type's order as a spec function — Verus rejects the recursion Vec<JsonValue>::cmp -> JsonValue::cmp through the trait impl, so termination of that recursion (bounded by nesting depth) is NOT proved"),
     "pub_tuple": (r"^(\s*(?:pub )?struct \w+\()(?!pub )", r"\1pub ", "field visibility is irrelevant in a single file"),
+    "chars_model": (r"\.chars\(\)", r".vchars()",
+        "`s.chars()` followed by skip / take / count / collect: own iterator type VChars over the string's characters (vstd has no specification for the Skip/Take adapters or collect::<String>)"),
+    "with_capacity": (r"\b(Vec|IndexMap)::with_capacity\(", r"vcap::\1_with_capacity(",
+        "`with_capacity(n)` goes to a stand-in that is the same constructor plus the precondition `n` is no larger than a collection that already exists (an N argument must not drive an allocation)"),
     "str_to_string": (r"\b(s|str|word|text)\.to_string\(\)", r"vstr::to_string_of(\1)", "&str::to_string() is a String with the same text"),
     "pub_crate": (r"\bpub\(crate\)\s+", r"pub ", "visibility is irrelevant in a single file"),
     "deref_clone": (
